@@ -81,8 +81,13 @@ def guard(fn, *a, **kw):
         return fn(*a, **kw)
     except Violation:
         raise
+    except HarnessError:
+        raise
     except Exception as e:  # noqa
-        where = in_repo_frames(e) or getattr(fn, '__name__', '?')
+        where = in_repo_frames(e)
+        if where is None:
+            # no frame of the code under test in the traceback: a fault of the harness itself, never a violation
+            raise HarnessError(f'{getattr(fn, "__name__", "?")}: {type(e).__name__}: {e}\n{traceback.format_exc()}') from e
         raise Violation(f'raises:{type(e).__name__}@{where}', repr(e)[:300]) from e
 
 
@@ -226,6 +231,16 @@ class Ctx:
             except HarnessError:
                 raise
             except Exception as e:  # hypothesis errors (Flaky, Unsatisfiable, ...)
+                if 'Flaky' in type(e).__name__ and 'fail' in holder:
+                    # the oracle DID fail on a generated case, but re-running that case alone passed: the outcome
+                    # depends on what was processed before (state kept outside the objects the case creates)
+                    case, v = holder['fail']
+                    self.failures.append({'sub': sub, 'case': case, 'signature': v.signature,
+                                          'message': v.message + ' [outcome depends on earlier cases in the same process: '
+                                                                 'the failing case may pass when replayed alone]'})
+                    self.found.add(v.signature)
+                    ok = False
+                    continue
                 raise HarnessError(f'{sub}: {type(e).__name__}: {e}') from e
             break
         return ok
@@ -281,6 +296,11 @@ def write_replay(pid, failure, seed, tier):
             'message': failure['message'], 'seed': seed, 'tier': tier, 'case': enc(failure['case'])}
     blob = json.dumps(body, sort_keys=True, indent=1, default=repr)
     name = hashlib.sha1(blob.encode()).hexdigest()[:16] + '.json'
+    if os.environ.get('VERIF_EVIDENCE_DIR'):
+        d = Path(os.environ['VERIF_EVIDENCE_DIR']) / 'replays' / pid
+        d.mkdir(parents=True, exist_ok=True)
+        (d / name).write_text(blob)
+        return str(d / name)
     d = VERIF_ROOT / 'replays' / pid
     d.mkdir(parents=True, exist_ok=True)
     (d / name).write_text(blob)
@@ -306,6 +326,6 @@ def write_evidence(mod, ctx, wall, nviol, known_lines):
     ev = {'property_id': mod.ID, 'tier': ctx.tier, 'seed': ctx.seed, 'level': 'exploration',
           'coverage': cov, 'assumptions': list(mod.ASSUMPTIONS), 'wall_s': round(wall, 2),
           'violations': nviol}
-    d = VERIF_ROOT / 'evidence'
-    d.mkdir(exist_ok=True)
+    d = Path(os.environ['VERIF_EVIDENCE_DIR']) if os.environ.get('VERIF_EVIDENCE_DIR') else VERIF_ROOT / 'evidence'
+    d.mkdir(parents=True, exist_ok=True)
     (d / f'{mod.ID}.json').write_text(json.dumps(ev, indent=1, default=repr) + '\n')
